@@ -255,7 +255,10 @@ class Fn:
 # properties are about (__config_read, config_read_file, config_write_file, config_clear, config_destroy), the body is
 # dumped as a tree of statements whose leaves are the normalised SOURCE TEXT of each simple statement / condition.
 FLOW_FUNCS = ['__config_read', 'config_read', 'config_read_string', 'config_read_file', 'config_write_file',
-              'config_clear', 'config_destroy']
+              'config_clear', 'config_destroy', 'config_write', '__config_locale_override', '__config_locale_restore',
+              'config_setting_add', 'config_setting_remove_elem', '__config_list_add', '__config_list_remove', 'config_setting_create',
+              'config_setting_set_int_elem', 'config_setting_set_int64_elem', 'config_setting_set_float_elem',
+              'config_setting_set_bool_elem', 'config_setting_set_string_elem']
 # the include stack (lib/scanctx.c)
 FLOW_FUNCS_SCANCTX = ['libconfig_scanctx_push_include', 'libconfig_scanctx_next_include_file', 'libconfig_scanctx_pop_include',
                       'libconfig_scanctx_cleanup', 'libconfig_scanctx_init', 'libconfig_scanctx_current_filename']
